@@ -1571,6 +1571,9 @@ func init() {
 			for i := 0; i < n; i++ {
 				out.Line("%s", strings.Replace(c05Stress(NewRNG(seed, fmt.Sprintf("c02s-%d", i)), i), "c05 ", "c02s ", 1))
 			}
+			for i := 0; i < 3; i++ {
+				out.Line("%s", apiResultsScenario(NewRNG(seed, fmt.Sprintf("c02api-%d", i))))
+			}
 			for _, exc := range []string{"action", "region"} {
 				out.Line("%s", serverExcMultiScenarioFor("c02", exc, false))
 				out.Line("%s", serverExcMultiScenarioFor("c02", exc, true))
